@@ -9,7 +9,7 @@ CHECKS = {
         category="exploration",
         text="Hypothesis-generated molecules / ensembles (all elements, every enum member, nested attributes incl. bytes, numpy arrays and int keys, NaN/inf "
              "coordinates, 0 atoms, 0 conformers) are stored in fresh MoleculeLibrary / ConformerLibrary files with four buffer sizes and read back in-session, "
-             "in a later session and through a new handle (every read is followed by an in-place edit of the result and a second read of the same key, which must again show what is stored; the Mapping views items() / values() pair every key with its own object); optionally the same objects are then edited in place and stored again under new keys (old keys keep the old state), molecules are also stored as a float32-coordinate subclass, objects may carry a parallel bond, some of their atoms may also sit in a foreign (live or dead) container, names go in through the setter (also the empty one), libraries are opened with several `encoding=` values; an independent field-by-field snapshot decides equality at float32 precision. Legacy (v1) files are "
+             "in a later session and through a new handle (every read is followed by an in-place edit of the result and a second read of the same key, which must again show what is stored; the Mapping views items() / values() pair every key with its own object); optionally the same objects are then edited in place and stored again under new keys (old keys keep the old state), molecules are also stored as a float32-coordinate subclass, objects may carry a parallel bond, half of their bonds reach their state by assignment after a plain connect(), attribute dictionaries may be keyed by tuples, some of their atoms may also sit in a foreign (live or dead) container, names go in through the setter (also the empty one), libraries are opened with several `encoding=` values; an independent field-by-field snapshot decides equality at float32 precision. Legacy (v1) files are "
              "additionally produced by the harness' own encoder and read through the library. A round-trip oracle over generated inputs is exactly what the "
              "input-quantified statement needs.",
         design_ref="DESIGN.md section 5, C01",
@@ -20,8 +20,8 @@ CHECKS = {
     "C05": dict(
         category="exploration",
         text="Model-based stateful testing: generated edit histories (<=40 ops: add/new/del atom by object, index, label, Element; connect; append_bond(s)/extend_bonds "
-             "with foreign atoms; del_bond; remove_substituent; add_implicit_hydrogens; substructure writes and bond deletion through a view, re-attachment of deleted atoms, atoms stolen from another molecule, parallel and self bonds (also on atoms new to the molecule), in-place charge writes, the source / a fresh clone overwritten in place, deletion by negative index, remove_substituent with atoms named as objects / indices / labels, a donor striking a stolen atom off its list) are interpreted on Molecule and Structure and on an "
-             "identity-keyed reference model, invariants after every step; plus ALL op sequences up to length 3/4 over a 28-letter alphabet. The statement quantifies "
+             "with foreign atoms; del_bond; remove_substituent; add_implicit_hydrogens; substructure writes and bond deletion through a view, re-attachment of deleted atoms, atoms stolen from another molecule, parallel and self bonds (also on atoms new to the molecule), in-place charge writes, the source / a fresh clone overwritten in place, deletion by negative index, remove_substituent with atoms named as objects / indices / labels, a donor striking a stolen atom off its list, add_atom of an atom that is already there) are interpreted on Molecule and Structure and on an "
+             "identity-keyed reference model, invariants after every step; plus ALL op sequences up to length 3/4 over a 29-letter alphabet. The statement quantifies "
              "over histories, which a model-based interpreter explores directly.",
         design_ref="DESIGN.md section 5, C05",
         note="Unique labels for by-label deletion; remove_substituent on bridge bonds only; Conformer edits are C14's.",
@@ -81,9 +81,9 @@ CHECKS = {
     "C11": dict(
         category="exploration",
         text="Six generated-input legs: rotation_matrix_from_vectors (general, parallel, antiparallel neighbourhood eps in {0} U 1e-12..1e-3, three tol values, perturbed "
-             "np.random state) and rotation_matrix_from_axis against their algebraic definition (and the caller's arrays must be left as they were); ten rigid-motion operations on molecules / ensembles / substructures (the parent may lose or gain an atom between selection and edit) "
+             "np.random state) and rotation_matrix_from_axis against their algebraic definition (the caller's arrays must be left as they were, and a result the caller scribbles on must not come back on the next request); ten rigid-motion operations on molecules / ensembles / substructures (the parent may lose or gain an atom between selection and edit) "
              "(distance matrix, signed volumes, documented effect); rotate_dihedral on every suitable bridge bond of 8 bundled files (exhaustive) and of generated graphs (also after the molecule was queried and re-wired in place); transform() with its validate flag; "
-             "align_to_ref_coords with two harness Kabsch variants (plain and internally centring, as the molli align wrappers), two index-set orders, two initial poses.",
+             "align_to_ref_coords (also against a reference that is a live view of the aligned ensemble itself) with two harness Kabsch variants (plain and internally centring, as the molli align wrappers), two index-set orders, two initial poses.",
         design_ref="DESIGN.md section 5, C11",
         note="Numerical tolerances 1e-6 (constructed matrices) / 1e-9 relative (rigid motions); collinear dihedral triples excluded; reference geometry centred as every caller does.",
         technique="property-based testing against algebraic definitions + metamorphic pose-independence relation",
@@ -92,7 +92,7 @@ CHECKS = {
         category="exploration",
         text="Constructed 3-D fragments (jittered lattice, random tree + ring closures, attachment point with any bond type, random rigid pose; also exactly parallel / "
              "antiparallel / z-aligned attachment vectors; attachment bonds of independently drawn length) are joined with generated options (dist, optimize_rotation, charge incl. 0 / mult / name / bond overrides) through "
-             "Molecule.join, Structure.join and a single-precision Molecule subclass (B may be a linker with a second attachment point), and iteratively on multi-attachment cores (all or a subset of the attachment points) exactly as molli combine does, with the real "
+             "Molecule.join, Structure.join and a single-precision Molecule subclass (B may be a linker with a second attachment point; fragments may come with non-bonded atoms), and iteratively on multi-attachment cores (all or a subset of the attachment points) exactly as molli combine does, with the real "
              "molli.scripts.combine._ml_assemble compared against the stepwise product (a combination with a defective substituent must yield no product), and end to end through molli.scripts.combine.molli_main on generated core / substituent libraries in every mode (attachment point labels out of atom order) with a structural oracle per product; attachment atoms may sit at index 0 and be untyped terminal atoms. Oracle: atom and bond transfer field by field, new bond "
              "type, proper rigid fit of each fragment (own Kabsch, mirror detected separately), bond length, frame-free bond-direction test from both fragments, charge / "
              "multiplicity, bit-identical coordinates under two np.random states, sources unchanged, nothing shared; a second join after in-place edits of both fragments is judged the same way.",
@@ -102,7 +102,7 @@ CHECKS = {
     ),
     "C13": dict(
         category="exploration",
-        text="Every labelled fragment of the 7 bundled .cdxml files (exhaustive) and of generated variants (top-level objects permuted, page translated, ids renumbered, "
+        text="Every labelled fragment of the 7 bundled .cdxml files (exhaustive) and of generated variants (top-level objects permuted, page translated, ids renumbered (also to small numbers that coincide with atomic numbers), "
              "<n> children permuted, each with its wedge<->hash mirrored twin) is parsed and compared with an independent ElementTree walk of the same file "
              "(attributed-graph isomorphism incl. isotopes, charges, radicals, attachment points, hydrogen hints, bond types, hapto expansion, nested fragments), total charge / "
              "multiplicity, two parses under different np.random states, the same label asked again after the caller edited the first result, label -> fragment resolution, the other labels parsed before and after a request for a deliberately damaged fragment failed, centre-level handedness inversion under mirroring, and an absolute "
@@ -117,7 +117,7 @@ CHECKS = {
         category="exploration",
         text="Model-based stateful testing: ensembles built through seven constructor routes, then generated op lists (append of Molecule / Structure / CartesianGeometry, extend "
              "by list / ensemble / iterator, scale, translate 1-D/2-D, rotate by one matrix or by one matrix per conformer, writes through ens[i], five iteration patterns incl. nested / interleaved / zip, slices, "
-             "conformer handles kept and used after later growth, rows addressed by negative index, writes through out-of-range locators (must not land in any existing row), the ensemble's own conformers appended by positive / negative index, rotation stacks of the wrong length, per-conformer dumps read back (coordinates, charges, name), serialisation via v2 codec / pickle / library) are interpreted on the ensemble and on three numpy arrays; rectangularity and "
+             "conformer handles kept and used after later growth, rows addressed by negative index, writes through out-of-range locators (must not land in any existing row), the ensemble's own conformers appended by positive / negative index, rotation stacks of the wrong length, per-conformer and ensemble-level dumps read back (coordinates, charges, name), frames collected into a blank ensemble, serialisation via v2 codec / pickle / library) are interpreted on the ensemble and on three numpy arrays; rectangularity and "
              "view consistency are checked after every step, and every geometry or ensemble that was handed in must stay untouched.",
         design_ref="DESIGN.md section 5, C14",
         note="Appended geometries have the ensemble's atom count; a new conformer's weight may be any real number; ConformerEnsemble(molecule) coordinate values not asserted.",
@@ -127,7 +127,7 @@ CHECKS = {
         category="exploration",
         text="Exhaustive leg: all labelled simple graphs on <=5 (quick) / <=6 (thorough) atoms with every start atom, every (start, neighbour) direction and every bond; random leg: "
              "generated forests with ring closures up to 40 atoms as Connectivity / Molecule / ConformerEnsemble / Substructure view of a bigger molecule, atoms named to the API as objects, integer indices, labels or Elements; FractionalOrder bonds; bond types as members or plain integers; matching leg: patterns cut from the source (wildcard, own bond "
-             "types, absent; source and pattern atoms carry unrelated atom types; bonds of every BondType member; query - in-place edit - query again; match() with one keyword callback at a time). References written for this harness: BFS distances, low-link bridge finder (cross-checked with networkx), backtracking induced-embedding search; the "
+             "types, absent; source and pattern atoms carry unrelated atom types; bonds of every BondType member; connected and two-piece patterns; query - in-place edit - query again; match() with one keyword callback at a time). References written for this harness: BFS distances, low-link bridge finder (cross-checked with networkx), backtracking induced-embedding search; the "
              "SET of returned mappings must equal the reference set.",
         design_ref="DESIGN.md section 5, C15",
         note="_edge_match's type rules beyond the statement are only exercised where every rule is satisfied.",
@@ -148,7 +148,7 @@ CHECKS = {
         category="fault_enumeration",
         text="Binding: ALL sequences of <=3/<=4 job accesses over three driver instances x {single, vectorised job} x {used at once, handle kept and used later}, plus in-place reconfiguration of a driver, for a harness "
              "DriverBase subclass and for XTBDriver; the prepared JobInput must carry that driver's executable / nprocs / environment. Execution: generated JobInputs (1-4 sh commands, "
-             "first failing command at every position, text / binary files incl. CR LF and NUL bytes, env override (also of PATH, programs named without a directory) vs inherited, every return-file plan) run by run_local() in a forked "
+             "first failing command at every position, text / binary files incl. CR LF and NUL bytes, output texts with significant whitespace inside quoted arguments, env override (also of PATH, programs named without a directory) vs inherited, every return-file plan) run by run_local() in a forked "
              "child and by the real _molli_run; oracle from marker files written by the commands themselves: order and stop-at-first-failure, private directory under scratch with exactly "
              "the input files byte for byte, environment, captured stdout/stderr, returned files, input hash, exit status iff, no scratch residue.",
         design_ref="DESIGN.md section 5, C17",
@@ -159,7 +159,7 @@ CHECKS = {
         category="fault_enumeration",
         text="Generated histories of 2-4 real jobmap runs (every job a _molli_run launch of a /bin/sh script that reads a per-item plan - ok / ok with an empty return file / fail / ok on the n-th attempt / omit "
              "the return file - and bumps a per-item execution counter) over small molecule and conformer libraries, with argument changes (new hash), pre-populated and foreign "
-             "destination keys, cache deletion / pollution with another input's output, fresh destinations on an old cache, strict and stdout-only post-processors, strict_hash on / off, log level critical / info / debug, job arguments by keyword or positionally, single and "
+             "destination keys, cache deletion / pollution with another input's output, fresh destinations on an old cache, strict and stdout-only post-processors, strict_hash on / off, log level critical / info / debug, job arguments by keyword or positionally, runs in a new interpreter process (other string-hash seed), single and "
              "vectorised jobs, jobs declared with job-level envars (reduce steps that consume every per-conformer result or only the first). A model of (destination, cache, counters) predicts after every run exactly which units execute and exactly what the destination holds.",
         design_ref="DESIGN.md section 5, C18",
         note="jobmap_sge (needs qsub) and worker() are not exercised; success = all commands exit 0 and the return file exists.",
@@ -190,8 +190,8 @@ CHECKS = {
     "C03": dict(
         category="fault_enumeration",
         text="For each generated (committed records, append session, recovery session) the write stream of the session is recorded and EVERY byte "
-             "prefix of it is materialised as a crash image (exhaustive per session); each image is reopened read-only (keys / get and the bulk views items / values), reopened for append with "
-             "recovery puts (incl. re-using the torn key; every record is also read inside the recovery session), crashed a second time at every byte of the recovery stream, and taken through the same recovery by ONE long-lived handle / Collection object (re-used across sessions, optionally already used before the crash image appeared). Oracle: committed records exact, "
+             "prefix of it is materialised as a crash image (exhaustive per session); each image is reopened read-only (keys / get and the bulk views items / values), the session is alternatively INTERRUPTED (KeyboardInterrupt out of a stream write, orderly wind-down with records still queued), reopened for append with "
+             "recovery puts (incl. re-using the torn key; every record is also read inside the recovery session), crashed a second time at every byte of the recovery stream, and taken through the same recovery by ONE long-lived handle / Collection object (re-used across sessions, optionally already used before the crash image appeared, with or without a reading use in between). Oracle: committed records exact, "
              "session records all-or-nothing, nothing foreign listed. Fault enumeration over crash points is exactly the property's quantifier.",
         design_ref="DESIGN.md section 5, C03",
         note="Crash model = prefix of the bytes handed to the file object in call order (no reordering below the file API; if the recorded writes do not reproduce the file, the bytes that differ are taken to appear in file order); torn file header excluded; "
@@ -200,7 +200,7 @@ CHECKS = {
     ),
     "C04": dict(
         category="fault_enumeration",
-        text="(a) harness-owned schedules: all sequences of <=2/<=3 sessions over 16 session kinds (a writing session that first reads an existing record among them; 12 failing, faults injected at body (Exception, KeyboardInterrupt, SystemExit) / encoder / flush-time "
+        text="(a) harness-owned schedules: all sequences of <=2/<=3 sessions over 18 kinds (a writing session that first reads an existing record, a record under the empty key, another process killed in mid-append between two sessions among them; 12 failing, faults injected at body (Exception, KeyboardInterrupt, SystemExit) / encoder / flush-time "
              "backend write / stream write inside UKVFile.put / end_write / end_read / begin_write / begin_read) on handles living in three processes, with a lock probe from a fresh process after every session; "
              "(b) a handle constructor of another process held (harness-owned gate) right before its first lock acquisition while this process creates the library and completes sessions; (c) another process sitting inside a session (gate) while this one asks with timeout 0 / 0.0 / 0.05 / 0.3: TimeoutError, never an entered session - also when the holder unpickles / deep-copies an idle handle of the same library inside its session, or a third process that constructed a handle earlier exits normally meanwhile, or the holder lets go of another handle whose last request had timed out; (d) handles pickled and unpickled after they were used; (e) real 8-16 process schedules with private scratch directories per process, the processes reaching the library through three spellings of its path (plain, sub/.., symlinked directory), with random delays whose oracle (timestamps taken inside the protected body, hand-over after failing sessions) "
              "cannot misfire on correct locking. Real interleavings are sampled, only session-granular schedules are exhaustive.",
